@@ -170,9 +170,16 @@ class BaseScanner(ABC):
             for device_service in devices[address].services:
                 # Apply service_info after adding all services in case a merge happens.
                 # We know services are of type MutableService here.
-                await self._service_infos[device_service.protocol](
-                    cast(MutableService, device_service), device_info, properties_map
-                )
+                try:
+                    await self._service_infos[device_service.protocol](
+                        cast(MutableService, device_service),
+                        device_info,
+                        properties_map,
+                    )
+                except Exception:
+                    _LOGGER.exception(
+                        "Failed to update service info for %s", device_service
+                    )
 
         return devices
 
